@@ -738,7 +738,7 @@ fn mutate(rng: &mut Rng, text: &str) -> String {
             4 => line.replacen('=', "", 1),
             5 => {
                 // numeric extremes
-                let big = *rng.pick(&["4294967296", "99999999999999999999", "-1", "0xFFFFFFFFF", "256", "65536", "0x", "1.5", "-0"]);
+                let big = *rng.pick(&["4294967296", "99999999999999999999", "-1", "0xFFFFFFFFF", "256", "255", "65536", "65535", "0xFFFF", "4294967295", "0x", "1.5", "-0"]);
                 if let Some(s) = line.find(|c: char| c.is_ascii_digit()) {
                     let e = line[s..].find(|c: char| !c.is_ascii_alphanumeric()).map(|k| s + k).unwrap_or(line.len());
                     format!("{}{}{}", &line[..s], big, &line[e..])
